@@ -27,7 +27,7 @@ def _man(name, mem=1, cpu=1, disk=1, **kw):
 
 SCENARIOS = {
     'base': dict(
-        racks={'rack:r1': ['s1', 's2'], 'rack:r2': ['s3']}, partitions=['pB'], traits=['t1'],
+        racks={'rack:a:01': ['s1', 's2'], 'rack:r2': ['s3']}, partitions=['pB'], traits=['t1'],
         sprofiles=[dict(cap=[2048, 2, 2048], label='_default', traits=[]),
                    dict(cap=[3072, 3, 3072], label='pB', traits=['t1']),
                    dict(cap=[1024, 1, 1024], label='_default', traits=['t1']),
@@ -434,6 +434,10 @@ def gen_topology(scn, rng):
             hist.append(('Blackout', [s]))
         elif r < 0.7:
             hist.append(('DetachRack', [rng.choice(racks)]))
+            if rng.random() < 0.5:
+                # the master fails over before any cycle has seen the change
+                hist.append(('Defer', []) if rng.random() < 0.5 else ('Tick', [1]))
+                hist.append(('Restart', []))
         elif r < 0.8:
             hist.append(('AttachRack', [rng.choice(racks)]))
         elif r < 0.9:
